@@ -181,6 +181,69 @@ def sized_program(r):
     return ["Struct", [["v%d" % i, r.choice(t)()] for i in range(r.randint(1, 5))]]
 
 
+def rooted_programs(r):
+    """formats whose outermost scope-opening construct is not a Struct (Sequence / FocusedSeq / a repeater of Structs / inside a
+    Prefixed region) with references to the outermost scope from below, and FocusedSeqs whose earlier members are computed from the
+    focused one: (recipe, values to build)"""
+    RN = lambda m: ["bin", "&", ["this", "_root", "n"], m]
+    inner = lambda m: ["Struct", [["x", B], ["d", ["Bytes", RN(m)]], ["s", ["Struct", [["e", ["Bytes", ["bin", "&", ["this", "_root", "n"], 1]]]]]]]]
+    seq = ["Sequence", [["n", B], ["a", inner(3)], [None, ["Array", 2, ["Struct", [["y", ["Bytes", RN(1)]]]]]], [None, ["If", ["bin", "==", ["this", "_root", "n"], 2], B]]]]
+    parr = ["FocusedSeq", "items", [["count", ["Rebuild", B, ["fn", "len", ["this", "items"]]]], ["items", ["Array", ["this", "count"], r.choice([B, ["name", "Int16ub"]])]]]]
+    flagged = ["FocusedSeq", "p", [["big", ["Rebuild", ["name", "Flag"], ["bin", ">", ["fn", "len", ["this", "p"]], 2]]], ["p", ["Prefixed", B, ["name", "GreedyBytes"], False]], [None, ["If", ["this", "big"], ["Const", tag(b"!"), None]]]]]
+    return [
+        (seq, [[2, {"x": 1, "d": b"ab", "s": {"e": b""}}, [{"y": b""}, {"y": b""}], 9], [1, {"x": 1, "d": b"a", "s": {"e": b"z"}}, [{"y": b"p"}, {"y": b"q"}], None]]),
+        (["Prefixed", B, seq, False], [[0, {"x": 5, "d": b"", "s": {"e": b""}}, [{"y": b""}, {"y": b""}], None]]),
+        (["Array", 2, ["Struct", [["n", B], ["s", ["Struct", [["t", ["Struct", [["e", ["Bytes", RN(3)]]]]]]]]]]], [[{"n": 1, "s": {"t": {"e": b"a"}}}, {"n": 2, "s": {"t": {"e": b"bc"}}}]]),
+        (["Sequence", [["n", B], [None, ["PrefixedArray", B, ["Struct", [["v", ["Bytes", RN(1)]]]]]], [None, parr]]], [[1, [{"v": b"a"}], [7, 8, 9]]]),
+        (parr, [[1, 2, 3], [], [5] * 9]),
+        (["Struct", [["h", B], ["body", parr], ["t", B]]], [{"h": 1, "body": [4, 5], "t": 2}]),
+        (flagged, [b"", b"ab", b"abcd"]),
+        (["Struct", [["n", B], ["f", flagged], ["g", ["FocusedSeq", "v", [["k", ["Rebuild", B, ["bin", "+", ["this", "v"], 1]]], ["v", B]]]]]], [{"n": 0, "f": b"xyz", "g": 4}]),
+    ]
+
+
+def run_rooted(ctx, rng):
+    import construct as C
+    for r, values in rooted_programs(rng):
+        try:
+            d = mk(r)
+        except Exception:
+            ctx.count("program_not_constructible")
+            continue
+        comp = outcome(lambda: d.compile())
+        if comp[0] != "ok":
+            ctx.count("compile_not_accepted:" + comp[1])
+            continue
+        c = comp[1]
+        ctx.count("rooted_programs")
+        case0 = {"rooted": True, "program": r}
+        datas = []
+        for v in values:
+            bi = outcome(lambda: d.build(v))
+            ctx.ev()
+            if bi[0] != "ok":
+                ctx.count("rooted_value_not_buildable_by_interpreter")
+                continue
+            bc = outcome(lambda: c.build(v))
+            if bc[:2] != bi[:2]:
+                ctx.violation("rooted:build:%s" % ("compiled-raises-" + bc[1] if bc[0] != "ok" else "value-differs"), "interpreter builds %s ; compiled %s (value %r)" % (bi[1].hex(), ("raised %s: %s" % (bc[1], bc[2])) if bc[0] != "ok" else "builds " + bc[1].hex(), v), dict(case0, value=tag(v)))
+                break
+            datas.append(bi[1])
+        for _ in range(30):
+            datas.append(bytes(rng.choice([0, 1, 2, 3, 2, 1, rng.getrandbits(8)]) for _ in range(rng.randint(0, 14))))
+        for data in datas:
+            ri = outcome(lambda: d.parse(data))
+            if ri[0] != "ok":
+                continue
+            ctx.ev()
+            ctx.count("comparisons")
+            rc = outcome(lambda: c.parse(data))
+            if rc[0] != "ok" or not veq(rc[1], ri[1]):
+                ctx.violation("rooted:parse:%s" % ("compiled-raises-" + rc[1] if rc[0] != "ok" else "value-differs"), "parse(%s): interpreter %r ; compiled %s" % (data.hex(), strip(ri[1]), ("raised %s: %s" % (rc[1], rc[2])) if rc[0] != "ok" else strip(rc[1])), dict(case0, input=tag(data)))
+                break
+            ctx.nontrivial("rooted", repr(r)[:80], len(data))
+
+
 def inputs(rng, count):
     outs = []
     for _ in range(count):
@@ -423,6 +486,8 @@ def run(ctx):
     rng = ctx.rng
     n = ctx.pick(1500, 40000) // ctx.nworkers
     nin = ctx.pick(30, 80)
+    for _ in range(ctx.pick(2, 6)):
+        run_rooted(ctx, rng)
     for i in range(n):
         g = PGen(rng)
         g.derived_program = (i % 4 == 1)
@@ -433,4 +498,6 @@ def run(ctx):
 
 def replay(ctx, case):
     import random
+    if case.get("rooted"):
+        return run_rooted(ctx, random.Random(1))
     run_program(ctx, case["program"], case.get("kw", {}), inputs(random.Random(1), 200))
